@@ -52,7 +52,7 @@ def universe():
         names[k] = True
     probes = set()
     for n, is_type in names.items():
-        for pre in (('', 'np.', 'numpy.') if is_type else ('numpy.',)):
+        for pre in (('', 'np.', 'numpy.', 'np.np.', 'numpy.np.') if is_type else ('', 'np.', 'numpy.')):
             probes.add(pre + n)
     for n in CANON:
         for m in (n.upper(), n.capitalize(), 'NP.' + n, 'Numpy.' + n, 'np.np.' + n, 'numpy.numpy.' + n, 'np.numpy.' + n):
@@ -69,7 +69,9 @@ def emit():
     import kapture.io.csv as kcsv
     import kapture.utils.upgrade as kup
     probes = universe()
-    tmp = tempfile.mkdtemp(prefix='kv-tdtypes-', dir='/var/tmp')
+    # ~12000 tiny files are rewritten: a memory file system when there is one (a disk costs ~2 ms per rewrite)
+    shm = '/dev/shm'
+    tmp = tempfile.mkdtemp(prefix='kv-tdtypes-', dir=shm if (os.path.isdir(shm) and os.access(shm, os.W_OK)) else '/var/tmp')
     cwd = os.getcwd()
     readers = [('keypoints', kcsv.keypoints_config_from_file, '# kapture format: 1.1\n# name, dtype, dsize\nN, %s, 4\n'),
                ('descriptors', kcsv.descriptors_config_from_file,
